@@ -46,6 +46,21 @@ var argVariants = [][]MArg{
 	{{V: 0xc000020000, Ptr: true, Inacc: true}},
 	{scalar(1), {V: 7, Inacc: true}},
 	{scalar(2), {V: 7, Inacc: true}},
+	// arguments that FOLLOW an aggregate, and aggregates between scalars
+	{aggOf(false, scalar(1), scalar(2)), scalar(3)},
+	{aggOf(false, scalar(1), scalar(2)), scalar(4)},
+	{aggOf(false, scalar(1), scalar(2)), scalar(0xc000010000)},
+	{aggOf(false, scalar(1), scalar(2)), scalar(0xc000020000)},
+	{scalar(1), aggOf(false, scalar(5)), scalar(6)},
+	{scalar(1), aggOf(false, scalar(5)), scalar(7)},
+	{aggOf(false, scalar(1)), aggOf(false, scalar(0xc000010000))},
+	{aggOf(false, scalar(1)), aggOf(false, scalar(0xc000020000))},
+	// the same leaf values, nested differently (and with a nested elision)
+	{aggOf(false, scalar(0xc000010000), scalar(2)), scalar(3)},
+	{scalar(0xc000010000), aggOf(false, scalar(2), scalar(3))},
+	{scalar(0xc000010000), scalar(2), scalar(3)},
+	{aggOf(false, scalar(1), scalar(2))},
+	{aggOf(true, scalar(1), scalar(2))},
 }
 
 type frameKind struct {
